@@ -9,7 +9,8 @@ ID = 'C02'
 COQ_FILES = ['Base/Mat.v', 'Base/SumQ.v', 'Base/ListX.v', 'Model/Modularity.v', 'Model/ModularityProb.v',
              'Model/ModularityGood.v', 'Proofs/ModularitySums.v', 'Proofs/ModularityQ.v', 'Proofs/ModularityGain.v',
              'Proofs/ModularityRun.v', 'Proofs/ModularityRunSign.v', 'Proofs/ModularityRunB.v', 'Proofs/ModularityProb.v',
-             'Proofs/ModularityBound.v', 'Properties/C02.v']
+             'Proofs/ModularityBound.v', 'Model/ModularitySelect.v', 'Proofs/ModularitySelect.v', 'Proofs/ModularityAuto.v',
+             'Proofs/ModularityRunFull.v', 'Properties/C02.v']
 THEOREMS = ['C02_relabel_range', 'C02_relabel_same_partition', 'C02_relabel_monotone', 'C02_q_closing_dir_eq_def',
             'C02_q_closing_und_eq_def', 'C02_q_closing_sign_eq_def', 'C02_q_closing_louvain_sign_eq_def',
             'C02_q_closing_louvainB_eq_def', 'C02_louvainB_modularity', 'C02_louvainB_potts',
@@ -23,7 +24,11 @@ THEOREMS = ['C02_relabel_range', 'C02_relabel_same_partition', 'C02_relabel_mono
             'C02_community_louvain_run_q', 'C02_community_louvain_run_labels', 'C02_community_louvain_run_levels',
             'C02_obj_builtin', 'C02_louvainB_negative_sym', 'C02_louvainB_negative_asym',
             'C02_run_finetune_sign_consistent', 'C02_run_finetune_sign_labels', 'C02_probtune_run_q',
-            'C02_probtune_run_completes', 'C02_Qund_lower_bound', 'C02_louvain_und_run_q_domain']
+            'C02_probtune_run_completes', 'C02_Qund_lower_bound', 'C02_louvain_und_run_q_domain',
+            # run-level statements on the extracted functions; hierarchy slice and spectral recursion inside the model
+            'C02_spectral_split_good', 'C02_run_spectral_oracle', 'C02_spectral_full_partial', 'C02_run_given_consistent',
+            'C02_run_und_sign_consistent', 'C02_run_finetune_und_labels', 'C02_run_finetune_dir_labels',
+            'C02_louvain_und_hierarchy']
 RULE = ('per routine: random structured networks n=3..9 (Erdos-Renyi at 3 densities, planted 2-3 groups, ring, star, two '
         'components, complete, one isolated node; optional self-loops) with integer weights 0..4 (binary for potts, random '
         'sign flips for the signed routines), directed where the routine accepts it, gamma in {1, 3/4, 5/4, 13/10}, all five '
@@ -106,6 +111,10 @@ def run(ctx):
                                'internal level %d' % (lvl + 1), n)
             lines.append(modq.model_line(case, levels))
             pend.append(('run', case, ci, q, levels))
+            if fn == 'modularity_louvain_und':
+                # hierarchy=True: the model's own slice ci[1:-1], q[1:-1] (run_louvain_und_hier) against the returned lists
+                lines.append('louvain_und_hier' + modq.model_line(case, levels)[len('louvain_und'):])
+                pend.append(('hier', case, [[int(x) for x in c] for c in cih], [float(x) for x in qh], None))
             # modularity_probtune_und_sign once more with a recording RandomState: the whole loop (permutation, every
             # random_sample / randint draw) is re-executed by the extracted model run_probtune on the explicit stream
             if fn == 'modularity_probtune_und_sign':
@@ -166,7 +175,7 @@ def run(ctx):
                 # spectral optimisation (no kci): the partition is LAPACK's business; labels 1..k and q consistent
                 case2 = {'fn': name, 'W': W, 'gamma': str(g), 'kci': None}
                 try:
-                    ci, q = call(f, A, gamma=float(g), _t=20.0)
+                    ci, q, table = modq.spectral_capture(f, A, float(g))
                 except Timeout:
                     ctx.fail(name + ':terminates', 'no result within 20 s', case2)
                     continue
@@ -181,6 +190,11 @@ def run(ctx):
                 ctx.check(close(tq, q), name + ':q', 'q=%r, modularity of the returned partition is %s' % (q, tq), case2)
                 lines.append('given %d ' % (which == 'dir') + enc_mat(W) + ' ' + enc_q(g) + ' ' + enc_list([int(x) for x in ci]))
                 pend.append(('given', case2, None, q, None))
+                # the recursion around the numeric kernel (recur from arange(n), null-module test, where(mod_asgn == +-1), DFS
+                # order, ls2ci, closing statement) re-executed by the extracted run_spectral_table on the recorded decisions
+                lines.append(modq.spectral_line(which == 'dir', W, g, table))
+                pend.append(('spectral', case2, [int(x) for x in ci], q, None))
+                ctx.count('spectral_splits', sum(1 for _, a in table if a is not None))
 
     # ---------------- correspondence: the extracted Coq model replays every run
     res = run_model(ID, lines)
@@ -194,6 +208,19 @@ def run(ctx):
                 ctx.mismatch(fn + ':q', 'closing formula: model %s impl %r' % (dec_q(m[0]), q), case, str(dec_q(m[0])), q)
             if dec_q(m[0]) != dec_q(m[1]):
                 ctx.mismatch(fn + ':theorem', 'model closing formula differs from model definitional Q', case)
+            continue
+        if kind == 'spectral':
+            if m[0] != ci or not close(dec_q(m[1]), q):
+                ctx.mismatch(fn + ':recursion', 'spectral recursion on the recorded decisions: model (%s, %s) impl (%s, %r)'
+                             % (m[0], dec_q(m[1]), ci, q), case, m[0], ci)
+            if dec_q(m[1]) != dec_q(m[2]):
+                ctx.mismatch(fn + ':theorem', 'model closing formula differs from model definitional Q', case)
+            continue
+        if kind == 'hier':
+            mq = [dec_q(x) for x in m[1]]
+            if m[0] != ci or len(mq) != len(q) or not all(close(a, b) for a, b in zip(mq, q)):
+                ctx.mismatch(fn + ':hierarchy', 'hierarchy=True returns (%s, %s), the model\'s slice is (%s, %s)'
+                             % (ci, q, m[0], [float(x) for x in mq]), pub(case), m[0], ci)
             continue
         if kind == 'probtune':
             if m is None:
